@@ -106,6 +106,8 @@ C = [
   [("pkg/core/blockchain.go", "\t\t\tif _, ok := seen[tx.Hash()]; ok {\n\t\t\t\treturn fmt.Errorf(\"invalid block: duplicate transaction %s\", tx.Hash().StringLE())\n\t\t\t}\n", "")]),
  ("C02-inactive-without-jump", "C20", "inactive-after-jump", "a restart that finds everything fetched marks the module inactive without jumping (the repaired defect)",
   [("pkg/core/statesync/module.go", "\ts.checkSyncIsCompleted()\n\treturn nil\n}", "\tif s.syncStage == headersSynced|blocksSynced|mptSynced {\n\t\ts.syncStage = inactive\n\t}\n\treturn nil\n}")]),
+ ("C02-header-gc-ignores-header-height", "C02", "gc-keeps-startup-page", "the header-hash collector is bounded by the traceability index only (the repaired defect)",
+  [("pkg/core/blockchain.go", "\ttill = min(till, (int32(bc.HeaderHeight()+1)/headerBatchCount-2)*headerBatchCount)\n", "")]),
 ]
 
 root = "/verif/controls"
